@@ -183,6 +183,64 @@ def check(chk: Check) -> None:
     # --------------------------------------------------------------------- R3
     charge_rules(chk, R3, R3)
     _r4_r5(chk)
+    _r6(chk)
+
+
+def _r6(chk: Check) -> None:
+    """Slice bounds: an omitted bound (None) stays None, every other bound is truncated with int(); the choice is made by an
+    identity test against None, never by truthiness (0 is a bound)."""
+    F = chk.facts
+    R6 = chk.rule('C07.R6', 'slice bounds: the slice node passes None for a bound exactly when the evaluated bound is None '
+                            '(identity test, not truthiness) and int(bound) otherwise', floor=1)
+    SLICE = ('ref', 'builtin', 'slice')
+    INT = {('ref', 'builtin', 'int'), ('ref', 'ext', 'math.trunc'), ('ref', 'ext', 'operator.index')}
+    found = 0
+    for cls in om.op_classes(F):
+        q = cls + '.eval'
+        if q not in F.functions:
+            continue
+        paths = [p for p in om.eval_paths(F, cls) if p.normal]
+        rets = [p for p in paths if isinstance(p.outcome[1], tuple) and p.outcome[1][:1] == ('call',) and p.outcome[1][2] == SLICE]
+        if not rets:
+            continue
+        found += 1
+        selft, stt = ('param', om.self_param(F, q)), ('param', om.state_param(F, q))
+        problems = []
+        combos = set()
+        for p in rets:
+            args = p.outcome[1][3]
+            kids = [freeze(c[2].result) for c in child_events(F, p, selft, stt) if c[2].kind == 'call']
+            if len(args) != len(kids) or p.outcome[1][4]:
+                problems.append('slice(%s) is built from %d evaluated bounds' % (', '.join(show(a) for a in args), len(kids)))
+                continue
+            isnone = {}
+            for c, v, _ in p.assumptions:
+                for i, k in enumerate(kids):
+                    if om.mentions(c, k):
+                        if isinstance(c, tuple) and c[:2] == ('cmp', 'is') and {c[2], c[3]} == {k, ('const', None)}:
+                            isnone[i] = v
+                        else:
+                            problems.append('bound %d is tested with `%s` (only `is None` distinguishes an omitted bound: 0 and '
+                                            'other falsy values are bounds)' % (i, show(c)))
+            for i, (a, k) in enumerate(zip(args, kids)):
+                sa = A.strip_ids(a)
+                conv = isinstance(sa, tuple) and sa[:1] == ('call',) and sa[2] in INT and sa[3] == (A.strip_ids(k),) and not sa[4]
+                if isnone.get(i) is True:
+                    if a != ('const', None) and a != k:
+                        problems.append('bound %d is None but slice() receives %s' % (i, show(a)))
+                elif isnone.get(i) is False:
+                    if not conv:
+                        problems.append('bound %d is not None and slice() receives %s, not int(<bound>)' % (i, show(a)))
+                else:
+                    problems.append('bound %d reaches slice() as %s without an `is None` test' % (i, show(a)))
+            combos.add(tuple(sorted(isnone.items())))
+        n = max((len(p.outcome[1][3]) for p in rets), default=0)
+        if not problems and len(combos) < 2 ** n:
+            problems.append('only %d of the %d None/non-None combinations of the bounds return' % (len(combos), 2 ** n))
+        chk.require(not problems, R6, q, F.func(q).where, '; '.join(sorted(set(problems))[:4]) or
+                    '%d bounds, %d combinations: None stays None, everything else goes through int()' % (n, len(combos)))
+    if not found:
+        raise AnalysisError('anchor vanished: no node class returns slice(...)')
 
 
 def _r4_r5(chk: Check) -> None:
